@@ -18,7 +18,7 @@ def run(ctx):
     # store type / cache size in live gossip: node 0 runs on a BadgerStore with cache 100 while the undetermined backlog exceeds the
     # cache (stall flavour) / while more than cache-size blocks are delivered (latesigs flavour); any disagreement of that node with
     # the in-memory nodes on a delivered block is a dependence of the consensus output on the store (oracle line V C01 blocks-differ)
-    for fl in ("stall", "latesigs"):
+    for fl in ("stall",):
         r3 = simcommon.run(ctx, fl)
         for v in r3["vlines"]:
             m = __import__("re").search(r" V C01 (blocks-differ\S*) (.*)$", v)
